@@ -41,6 +41,9 @@ class Construction:
       except:
         break
       first_tag = i
+    # tags were collected from the last to the first: restore the input order
+    for tagname in reversed(list(self._data.keys())):
+      self._data[tagname] = self._data.pop(tagname)
     self._delayed_initialize_positional_fields(strings, first_tag)
 
   def _delayed_initialize_positional_fields(self, strings, n_positional_fields):
